@@ -235,7 +235,7 @@ func TestVf_C09(t *testing.T) {
 		wg.Add(1)
 		go func(wk int) {
 			defer wg.Done()
-			for c := wk; c < n; c += workers {
+			for c := wk; c < n && !run.Enough(); c += workers {
 				r := rand.New(rand.NewSource(vfkit.Seed()*7919 + int64(c)))
 				cs := &vfC09Case{Seed: vfkit.Seed()*104729 + int64(c)}
 				nseg := 1
